@@ -36,6 +36,9 @@ DIRECTED = [
     # a merging metadata update (one key) racing with an overwrite: the merged record belongs to one of the two orders
     [[{"t": "umeta", "id": 1, "m": {"k1": 0, "k2": 2}, "merge": True}, {"t": "getwm", "id": 1}], [{"t": "insert", "id": 1, "v": 5, "m": {"k1": 1, "k2": 1}}, {"t": "bulkget", "ids": [1, 3]}]],
     [[{"t": "umeta", "id": 3, "m": {"k1": 0, "k2": 2}, "merge": True}], [{"t": "insert", "id": 3, "v": 6, "m": {"k1": 1, "k2": 1}}, {"t": "getwm", "id": 3}]],
+    # the two canonical-only point reads (metadata, existence) against delete + reinsert and against racing overwrites
+    [[{"t": "getmeta", "id": 1}, {"t": "exists", "id": 1}], [{"t": "delete", "id": 1}, {"t": "insert", "id": 1, "v": 5, "m": {"k1": 1, "k2": 1}}]],
+    [[{"t": "insert", "id": 1, "v": 5, "m": {"k1": 2, "k2": 1}}, {"t": "getmeta", "id": 1}], [{"t": "insert", "id": 1, "v": 6, "m": {"k1": 1, "k2": 2}}, {"t": "exists", "id": 1}, {"t": "getmeta", "id": 1}]],
 ]
 
 
